@@ -153,37 +153,20 @@ theorem depressed (r s t y : α) :
       y * y * y + cubicP r s * y + cubicQ r s t := by
   unfold cubicP cubicQ; ring
 
-/-- `cardanoA` vanishes exactly at p = 0, q > 0 -/
-theorem cardanoA_eq_zero_iff (F : CubicFns α) (r s t : α) (hD : 0 < cubicD r s t)
+/-- with the cancellation-free sign choice the cube-root argument never vanishes -/
+theorem cardanoA_ne_zero (F : CubicFns α) (r s t : α) (hD : 0 < cubicD r s t)
     (hs : F.sqrt (cubicD r s t) * F.sqrt (cubicD r s t) = cubicD r s t ∧ 0 ≤ F.sqrt (cubicD r s t)) :
-    cardanoA F r s t = 0 ↔ cubicP r s = 0 ∧ 0 < cubicQ r s t := by
+    cardanoA F r s t ≠ 0 := by
   obtain ⟨hs1, hs2⟩ := hs
+  have hSpos : 0 < F.sqrt (cubicD r s t) := by
+    rcases hs2.lt_or_eq with h1 | h1
+    · exact h1
+    · rw [← h1] at hs1; linarith
   unfold cardanoA
-  set S := F.sqrt (cubicD r s t)
-  set q := cubicQ r s t
-  set p := cubicP r s
-  have hDdef : cubicD r s t = p / 3 * (p / 3) * (p / 3) + q / 2 * (q / 2) := rfl
-  constructor
-  · intro h
-    have hS : S = q / 2 := by linear_combination h
-    have hp3 : p / 3 * (p / 3) * (p / 3) = 0 := by
-      rw [hDdef, hS] at hs1; linear_combination -hs1
-    have hp : p = 0 := by
-      rcases mul_eq_zero.mp hp3 with h1 | h1
-      · rcases mul_eq_zero.mp h1 with h2 | h2 <;> linarith
-      · linarith
-    refine ⟨hp, ?_⟩
-    have hSpos : 0 < S := by
-      rcases hs2.lt_or_eq with h1 | h1
-      · exact h1
-      · rw [← h1] at hs1; linarith
-    linarith
-  · rintro ⟨hp, hq⟩
-    have hD2 : cubicD r s t = q / 2 * (q / 2) := by rw [hDdef, hp]; ring
-    have : (S - q / 2) * (S + q / 2) = 0 := by rw [hD2] at hs1; linear_combination hs1
-    rcases mul_eq_zero.mp this with h | h
-    · linear_combination h
-    · linarith
+  split_ifs with hq
+  · intro h; linarith
+  · have hq' : cubicQ r s t ≤ 0 := not_lt.mp hq
+    intro h; linarith
 
 theorem realRoot_cube (F : CubicFns α) (a : α)
     (hcs : (F.copysign1 a = 1 ∨ F.copysign1 a = -1) ∧ 0 ≤ F.copysign1 a * a)
@@ -198,18 +181,17 @@ theorem realRoot_cube (F : CubicFns α) (a : α)
   · rw [h] at hpow ⊢
     linear_combination -hpow
 
-/-- Cardano, D > 0: the value returned is a root of x³ + r x² + s x + t whenever the
-cube-root argument is non-zero (the degenerate case is `cubic_real_branch_defect`). -/
-theorem solveNormalizedCubic_real_partial (F : CubicFns α) (r s t : α) (hD : 0 < cubicD r s t)
+/-- Cardano, D > 0, the value returned is ALWAYS a root -/
+theorem solveNormalizedCubic_real (F : CubicFns α) (r s t : α) (hD : 0 < cubicD r s t)
     (hs : F.sqrt (cubicD r s t) * F.sqrt (cubicD r s t) = cubicD r s t ∧ 0 ≤ F.sqrt (cubicD r s t))
     (hcs : (F.copysign1 (cardanoA F r s t) = 1 ∨ F.copysign1 (cardanoA F r s t) = -1) ∧
       0 ≤ F.copysign1 (cardanoA F r s t) * cardanoA F r s t)
     (hpow : F.pow (F.copysign1 (cardanoA F r s t) * cardanoA F r s t) (1 / 3) *
         F.pow (F.copysign1 (cardanoA F r s t) * cardanoA F r s t) (1 / 3) *
         F.pow (F.copysign1 (cardanoA F r s t) * cardanoA F r s t) (1 / 3) =
-      F.copysign1 (cardanoA F r s t) * cardanoA F r s t)
-    (hA : cardanoA F r s t ≠ 0) :
+      F.copysign1 (cardanoA F r s t) * cardanoA F r s t) :
     ∃ x, solveNormalizedCubic F r s t = (1, [x]) ∧ x * x * x + r * (x * x) + s * x + t = 0 := by
+  have hA := cardanoA_ne_zero F r s t hD hs
   have hu3 := realRoot_cube F (cardanoA F r s t) hcs hpow
   set u := realRoot F (cardanoA F r s t) 3 with hu
   have hu0 : u ≠ 0 := by
@@ -223,21 +205,22 @@ theorem solveNormalizedCubic_real_partial (F : CubicFns α) (r s t : α) (hD : 0
         s * (u + -(cubicP r s) / (3 * u) - r / 3) + t = 0 := by
       rw [hdep]
       obtain ⟨hs1, hs2⟩ := hs
-      have hAdef : cardanoA F r s t = -(cubicQ r s t) / 2 + F.sqrt (cubicD r s t) := rfl
       have hDdef : cubicD r s t = cubicP r s / 3 * (cubicP r s / 3) * (cubicP r s / 3) +
           cubicQ r s t / 2 * (cubicQ r s t / 2) := rfl
-      set S := F.sqrt (cubicD r s t)
+      have hres : cardanoA F r s t * cardanoA F r s t + cubicQ r s t * cardanoA F r s t -
+          cubicP r s / 3 * (cubicP r s / 3) * (cubicP r s / 3) = 0 := by
+        unfold cardanoA
+        have hs1' := hs1.trans hDdef
+        split_ifs <;> linear_combination hs1'
       set q := cubicQ r s t
       set p := cubicP r s
       set A := cardanoA F r s t
-      -- A² + q A - (p/3)³ = 0
-      have hres : A * A + q * A - p / 3 * (p / 3) * (p / 3) = 0 := by
-        rw [hAdef]; rw [hDdef] at hs1; linear_combination hs1
       have hy : (u + -p / (3 * u)) * (u + -p / (3 * u)) * (u + -p / (3 * u)) + p * (u + -p / (3 * u)) + q
           = (u * u * u * (u * u * u) + q * (u * u * u) - p / 3 * (p / 3) * (p / 3)) / (u * u * u) := by
         field_simp; ring
       rw [hy, hu3, hres, zero_div]
     linear_combination this
+
 
 theorem cube_inj (n m : α) (h : n * n * n = m * m * m) : n = m := by
   by_contra hne
@@ -280,36 +263,23 @@ theorem solveNormalizedCubic_triple (F : CubicFns α) (r s t : α)
     have := cube_inj _ _ h3
     linear_combination this
 
-/-- GENUINE DEFECT (DESIGN §7 item 6): at r = s = 0, t = 1 (x³ + 1 = 0; p = 0, q = 1 > 0) the
-D > 0 branch is taken, the cube-root argument `-q/2 + sqrt D` is exactly 0, hence `u = 0`
-and `v = -p / (3 u)` divides by zero.  In IEEE arithmetic that is 0/0 = NaN; in a field
-(x/0 = 0) the value returned is 0.  Either way it is not the root -1. -/
-theorem cubic_real_branch_defect (F : CubicFns α)
-    (hs : F.sqrt (1 / 4) = 1 / 2)
-    (hcs : F.copysign1 0 = 1 ∨ F.copysign1 0 = -1)
-    (hpow : F.pow 0 (1 / 3) * F.pow 0 (1 / 3) * F.pow 0 (1 / 3) = 0) :
-    0 < cubicD (0 : α) 0 1 ∧ cardanoA F 0 0 1 = 0 ∧ 3 * realRoot F (cardanoA F 0 0 1) 3 = 0 ∧
-    ∀ x, solveNormalizedCubic F 0 0 1 = (1, [x]) → x * x * x + 0 * (x * x) + 0 * x + 1 ≠ 0 := by
+/-- the former defect input x³ + 1 = 0 (r = s = 0, t = 1; p = 0, q = 1 > 0): the cube-root
+argument is now -q/2 - sqrt D = -1, u = -1, v = 0, and the root -1 is returned -/
+theorem cubic_former_defect_fixed (F : CubicFns α)
+    (hs : F.sqrt (1 / 4) = 1 / 2) (hcs : F.copysign1 (-1) = -1) (hpow : F.pow 1 (1 / 3) = 1) :
+    cardanoA F 0 0 1 = -1 ∧ solveNormalizedCubic F 0 0 1 = (1, [-1]) ∧
+    (-1 : α) * (-1) * (-1) + 0 * ((-1) * (-1)) + 0 * (-1) + 1 = 0 := by
   have hD : cubicD (0 : α) 0 1 = 1 / 4 := by unfold cubicD cubicP cubicQ; norm_num
   have hq : cubicQ (0 : α) 0 1 = 1 := by unfold cubicQ; norm_num
   have hp : cubicP (0 : α) 0 = 0 := by unfold cubicP; norm_num
-  have hA : cardanoA F 0 0 1 = 0 := by unfold cardanoA; rw [hD, hs, hq]; norm_num
-  have hpw : F.pow 0 (1 / 3) = 0 := by
-    rcases mul_eq_zero.mp hpow with h | h
-    · rcases mul_eq_zero.mp h with h | h <;> exact h
-    · exact h
-  have hu : realRoot F (cardanoA F 0 0 1) 3 = 0 := by
-    rw [hA]; unfold realRoot; simp only [mul_zero, hpw]
-  refine ⟨by rw [hD]; norm_num, hA, by rw [hu, mul_zero], ?_⟩
-  intro x hx
-  rw [solveNormalizedCubic_cases, if_neg (by rw [hD]; norm_num), if_pos (by rw [hD]; norm_num)] at hx
-  unfold cubicReal at hx
-  simp only [hu, hp] at hx
-  have hx0 : x = 0 := by
-    have := (Prod.mk.inj hx).2
-    simp only [List.cons.injEq, and_true] at this
-    rw [← this]; norm_num
-  rw [hx0]; norm_num
+  have hA : cardanoA F 0 0 1 = -1 := by
+    unfold cardanoA; rw [hD, hs, hq, if_pos (by norm_num)]; norm_num
+  have hu : realRoot F (cardanoA F 0 0 1) 3 = -1 := by
+    rw [hA]; unfold realRoot; simp only [hcs]; norm_num [hpow]
+  refine ⟨hA, ?_, by norm_num⟩
+  rw [solveNormalizedCubic_cases, if_neg (by rw [hD]; norm_num), if_pos (by rw [hD]; norm_num)]
+  unfold cubicReal
+  simp only [hu, hp]; norm_num
 
 /-- Cardano, D ≤ 0 (complex intermediates): every value written is a root, given that the
 library's complex square root of the real `D ≤ 0` is `(0, w)` with `w² = -D`, that the complex
@@ -387,61 +357,5 @@ theorem cubicComplex_roots (F : CubicFns α) (r s t : α) (w : α)
   · have := depressed r s t (2 * a); rw [← hpdef, ← hqdef] at this; linear_combination this + root0
   · have := depressed r s t (-a - b * F.sqrt3); rw [← hpdef, ← hqdef] at this; linear_combination this + root1
   · have := depressed r s t (-a + b * F.sqrt3); rw [← hpdef, ← hqdef] at this; linear_combination this + root2
-
-/-- with the cancellation-free sign choice the cube-root argument never vanishes -/
-theorem cardanoAStable_ne_zero (F : CubicFns α) (r s t : α) (hD : 0 < cubicD r s t)
-    (hs : F.sqrt (cubicD r s t) * F.sqrt (cubicD r s t) = cubicD r s t ∧ 0 ≤ F.sqrt (cubicD r s t)) :
-    cardanoAStable F r s t ≠ 0 := by
-  obtain ⟨hs1, hs2⟩ := hs
-  have hSpos : 0 < F.sqrt (cubicD r s t) := by
-    rcases hs2.lt_or_eq with h1 | h1
-    · exact h1
-    · rw [← h1] at hs1; linarith
-  unfold cardanoAStable
-  split_ifs with hq
-  · intro h; linarith
-  · have hq' : cubicQ r s t ≤ 0 := not_lt.mp hq
-    intro h; linarith
-
-/-- Cardano, D > 0, cancellation-free variant: the value returned is ALWAYS a root -/
-theorem solveNormalizedCubicStable_real (F : CubicFns α) (r s t : α) (hD : 0 < cubicD r s t)
-    (hs : F.sqrt (cubicD r s t) * F.sqrt (cubicD r s t) = cubicD r s t ∧ 0 ≤ F.sqrt (cubicD r s t))
-    (hcs : (F.copysign1 (cardanoAStable F r s t) = 1 ∨ F.copysign1 (cardanoAStable F r s t) = -1) ∧
-      0 ≤ F.copysign1 (cardanoAStable F r s t) * cardanoAStable F r s t)
-    (hpow : F.pow (F.copysign1 (cardanoAStable F r s t) * cardanoAStable F r s t) (1 / 3) *
-        F.pow (F.copysign1 (cardanoAStable F r s t) * cardanoAStable F r s t) (1 / 3) *
-        F.pow (F.copysign1 (cardanoAStable F r s t) * cardanoAStable F r s t) (1 / 3) =
-      F.copysign1 (cardanoAStable F r s t) * cardanoAStable F r s t) :
-    ∃ x, solveNormalizedCubicStable F r s t = (1, [x]) ∧ x * x * x + r * (x * x) + s * x + t = 0 := by
-  have hA := cardanoAStable_ne_zero F r s t hD hs
-  have hu3 := realRoot_cube F (cardanoAStable F r s t) hcs hpow
-  set u := realRoot F (cardanoAStable F r s t) 3 with hu
-  have hu0 : u ≠ 0 := by
-    intro h; rw [h] at hu3; apply hA; linear_combination -hu3
-  refine ⟨u + -(cubicP r s) / (3 * u) - r / 3, ?_, ?_⟩
-  · unfold solveNormalizedCubicStable
-    rw [if_neg (by simp [hD.ne']), if_pos hD]
-    rfl
-  · have hdep := depressed r s t (u + -(cubicP r s) / (3 * u))
-    have : (u + -(cubicP r s) / (3 * u) - r / 3) * (u + -(cubicP r s) / (3 * u) - r / 3) * (u + -(cubicP r s) / (3 * u) - r / 3) +
-        r * ((u + -(cubicP r s) / (3 * u) - r / 3) * (u + -(cubicP r s) / (3 * u) - r / 3)) +
-        s * (u + -(cubicP r s) / (3 * u) - r / 3) + t = 0 := by
-      rw [hdep]
-      obtain ⟨hs1, hs2⟩ := hs
-      have hDdef : cubicD r s t = cubicP r s / 3 * (cubicP r s / 3) * (cubicP r s / 3) +
-          cubicQ r s t / 2 * (cubicQ r s t / 2) := rfl
-      have hres : cardanoAStable F r s t * cardanoAStable F r s t + cubicQ r s t * cardanoAStable F r s t -
-          cubicP r s / 3 * (cubicP r s / 3) * (cubicP r s / 3) = 0 := by
-        unfold cardanoAStable
-        have hs1' := hs1.trans hDdef
-        split_ifs <;> linear_combination hs1'
-      set q := cubicQ r s t
-      set p := cubicP r s
-      set A := cardanoAStable F r s t
-      have hy : (u + -p / (3 * u)) * (u + -p / (3 * u)) * (u + -p / (3 * u)) + p * (u + -p / (3 * u)) + q
-          = (u * u * u * (u * u * u) + q * (u * u * u) - p / 3 * (p / 3) * (p / 3)) / (u * u * u) := by
-        field_simp; ring
-      rw [hy, hu3, hres, zero_div]
-    linear_combination this
 end
 end ImathVerif.Roots
